@@ -25,9 +25,10 @@ CONSTANTS
   MaxConnEv = 0
   MaxApi = 0
   StopKinds <- SK_All
+  OutKinds <- OK_Del
   Faults <- NoFaults
   Dev <- NoDev
 SYMMETRY Sym
 CONSTRAINT NoOverflow
 CHECK_DEADLOCK FALSE
-INVARIANTS NoViolation C02_AtMostOne C02_Backed C08_Mirror C09_Final C18_Consistent C19_Ctx
+INVARIANTS C03_Bound NoViolation C02_AtMostOne C02_Backed C08_Mirror C09_Final C18_Consistent C19_Ctx
